@@ -216,7 +216,13 @@ Inductive op :=
 | OpFromStringCI (s : string)
 | OpIter
 | OpLen
-| OpReversed.
+| OpReversed
+| OpIterDuring (vs : list Z)        (* it = iter(cls); next(it); lenient conversions of vs; drain it *)
+| OpReversedDuring (vs : list Z).   (* the same with reversed(cls) *)
+
+(* lenient conversions in sequence *)
+Definition call_all (st : enum_state) (vs : list Z) : enum_state :=
+  fold_left (fun s v => fst (call s v false)) vs st.
 
 Definition step (st : enum_state) (o : op) : enum_state * outcome :=
   match o with
@@ -228,6 +234,12 @@ Definition step (st : enum_state) (o : op) : enum_state * outcome :=
   | OpIter => (st, OList (iter st))
   | OpLen => (st, OLen (len st))
   | OpReversed => (st, OList (reversed st))
+  (* an iteration that is open while unknown values are first encountered.  EnumMeta.__iter__ walks the live
+     _member_names_ list, which extend_enum only appends to: the open iterator goes on to visit the appended names,
+     so it yields the visible members of the list as it is when the iterator is drained.  reversed() takes its
+     positions from the end of the list as it was when the iterator was created: appended names are not visited. *)
+  | OpIterDuring vs => let st1 := call_all st vs in (st1, OList (iter st1))
+  | OpReversedDuring vs => let st1 := call_all st vs in (st1, OList (reversed st))
   end.
 
 Definition run (st : enum_state) (ops : list op) : enum_state * list outcome :=
@@ -274,6 +286,8 @@ Definition spec (d : list member) (o : op) : sout :=
   | OpIter => SList (canonical d)
   | OpLen => SLen (List.length (canonical d))
   | OpReversed => SList (rev (canonical d))
+  | OpIterDuring _ => SList (canonical d)
+  | OpReversedDuring _ => SList (rev (canonical d))
   end.
 
 (* the public view of a model outcome *)
@@ -298,7 +312,7 @@ Definition hidden_ns_ci (s : string) : bool := starts_with (lower unrecognized_p
    defines a new visible member on purpose: see C17_lenient_unknown_name_refuted) *)
 Definition allowed (d : list member) (o : op) : bool :=
   match o with
-  | OpCall _ _ | OpGetInt _ | OpIter | OpLen | OpReversed => true
+  | OpCall _ _ | OpGetInt _ | OpIter | OpLen | OpReversed | OpIterDuring _ | OpReversedDuring _ => true
   | OpCallName s true => true
   | OpCallName s false => match from_string (init d) s with inl _ => true | inr _ => false end
   | OpGetName s => negb (hidden_ns s)
